@@ -70,12 +70,13 @@ struct Client
    std::string host, sid;
    bool reflectSelf;
    std::vector<std::string> routeKeys; bool hasRoute;
+   std::vector<std::string> routeFilt; bool hasRouteFilt;   // the PR_NAME_FILTERS parameter of the default route, as the client set it
    std::map<std::string, Sub> subs;  // param name -> subscription
    std::map<std::string, std::string> mirror;                  // node path -> payload dump
    std::map<std::string, ConstMessageRef> mirrorMsg;           // node path -> payload (for the client-side filter test on unsubscribe)
    std::map<std::string, std::vector<std::string> > idx;       // node path -> index (names)
    std::vector<std::string> inbox;                             // canonical descriptions of what arrived since the last pump line
-   Client() : attached(false), blocked(false), tainted(false), usedFilter(false), dupSpelling(false), gw(NULL), session(NULL), reflectSelf(false), hasRoute(false) {}
+   Client() : attached(false), blocked(false), tainted(false), usedFilter(false), dupSpelling(false), gw(NULL), session(NULL), reflectSelf(false), hasRoute(false), hasRouteFilt(false) {}
 };
 
 static volatile long g_opDeadlineLine = 0;
@@ -532,6 +533,19 @@ struct SrvEngine : public Engine
          if (t[2] == "self") {(void) m()->AddBool(PR_NAME_REFLECT_TO_SELF, true); c.reflectSelf = true;}
          else if ((t[2] == "maxitems")&&(t.size() == 4)) {uint64_t n; if (!toU64(t[3], n)) return "bad-op"; (void) m()->AddInt32(PR_NAME_MAX_UPDATE_MESSAGE_ITEMS, (int32)n);}
          else if (t[2] == "nosubs") {(void) m()->AddBool(PR_NAME_DISABLE_SUBSCRIPTIONS, true); c.tainted = true;}
+         else if ((t[2] == "routef")&&(t.size() >= 5)&&(t.size() % 2 == 1))
+         {
+            // param <slot> routef <key> <filter> [<key> <filter> ...]: default route with one filter item per key ("-" = an item that is no filter)
+            c.routeKeys.clear(); c.routeFilt.clear(); c.hasRoute = true; c.hasRouteFilt = true;
+            for (size_t k=3; k+1<t.size(); k+=2)
+            {
+               std::string p; bool okf; if (!unhex(t[k], p)) return "bad-op";
+               ConstQueryFilterRef f = mkFilter(t[k+1], okf); if (!okf) return "bad-op";
+               (void) m()->AddString(PR_NAME_KEYS, MS(p)); c.routeKeys.push_back(p); c.routeFilt.push_back(t[k+1]);
+               MessageRef fm = GetMessageFromPool(); if (f()) (void) f()->SaveToArchive(*fm());
+               (void) m()->AddMessage(PR_NAME_FILTERS, fm);
+            }
+         }
          else if ((t[2] == "route")&&(t.size() >= 4)) {c.routeKeys.clear(); c.hasRoute = true; for (size_t k=3; k<t.size(); k++) {std::string p; if (!unhex(t[k], p)) return "bad-op"; (void) m()->AddString(PR_NAME_KEYS, MS(p)); c.routeKeys.push_back(p);}}
          else return "bad-op";
       }
@@ -541,6 +555,7 @@ struct SrvEngine : public Engine
          if (t[2] == "self") {(void) m()->AddString(PR_NAME_KEYS, EscapeRegexTokens(PR_NAME_REFLECT_TO_SELF)); c.reflectSelf = false; c.tainted = true;}
          else if (t[2] == "maxitems") (void) m()->AddString(PR_NAME_KEYS, EscapeRegexTokens(PR_NAME_MAX_UPDATE_MESSAGE_ITEMS));
          else if (t[2] == "route") {(void) m()->AddString(PR_NAME_KEYS, EscapeRegexTokens(PR_NAME_KEYS)); c.routeKeys.clear(); c.hasRoute = false;}
+         else if (t[2] == "routef") {(void) m()->AddString(PR_NAME_KEYS, EscapeRegexTokens(PR_NAME_FILTERS)); c.routeFilt.clear(); c.hasRouteFilt = false;}
          else return "bad-op";
       }
       else if (op == "getparams") m = GetMessageFromPool(PR_COMMAND_GETPARAMETERS);
@@ -580,7 +595,16 @@ struct SrvEngine : public Engine
          {
             const bool broadcast = keys.empty() && !c.hasRoute;
             const std::vector<std::string> & eff = keys.empty() ? c.routeKeys : keys;
-            PathMatcher pm; for (size_t k=0; k<eff.size(); k++) {String q = MS(eff[k]); pm.AdjustStringPrefix(q, "*/*"); (void) pm.PutPathString(q, ConstQueryFilterRef());}
+            PathMatcher pm;
+            if ((keys.empty())&&(c.hasRouteFilt))
+            {
+               // the default route is what the two listed parameters say: keys paired with the filter items by PathMatcher's own rule
+               Message rm; bool okf;
+               for (size_t k=0; k<c.routeKeys.size(); k++) (void) rm.AddString(PR_NAME_KEYS, MS(c.routeKeys[k]));
+               for (size_t k=0; k<c.routeFilt.size(); k++) {MessageRef fm = GetMessageFromPool(); ConstQueryFilterRef f = mkFilter(c.routeFilt[k], okf); if (f()) (void) f()->SaveToArchive(*fm()); (void) rm.AddMessage(PR_NAME_FILTERS, fm);}
+               (void) pm.PutPathsFromMessage(PR_NAME_KEYS, PR_NAME_FILTERS, rm, "*/*");
+            }
+            else for (size_t k=0; k<eff.size(); k++) {String q = MS(eff[k]); pm.AdjustStringPrefix(q, "*/*"); (void) pm.PutPathString(q, ConstQueryFilterRef());}
             DataNode * r = root(); std::vector<DataNode *> nodes; if (r) walk(*r, nodes);
             for (int j=0; j<NSLOTS; j++) if ((cl[j].attached)&&((j != si)||(c.reflectSelf)))
             {
